@@ -218,3 +218,71 @@ def leaf_corr(ctx, cases, results, want=('scan', 'txtpos', 'lines', 'ml', 'latex
             if rng.random() < 0.3:
                 le[-1] = (le[-1][0], len(src) - 1 - min(len(src) - 1, rng.randint(0, 3)), src, le[-1][3])
         latexerr(ctx, le)
+
+# ---- full expander: tex2txt on the model ------------------------------------
+
+FUEL = 200000
+
+def t2t_request(i, case):
+    o = case.get('opts') or {}
+    files = case.get('files') or {}
+    repl = o.get('repl') or []
+    f = [proto.enc_str(o.get('lang') or ''), proto.enc_str(o.get('pack') or ''), proto.enc_str(o.get('dcls') or ''),
+         proto.enc_str(o.get('extr') or ''), proto.enc_bool(o.get('seqs')), proto.enc_bool(o.get('nosp')),
+         proto.enc_bool(o.get('unkn')), proto.enc_str(o.get('defs') or ''),
+         proto.enc_bool(case.get('multi')), str(case.get('thresh') if case.get('thresh') is not None else 3),
+         proto.enc_bool(bool(repl))]
+    f += proto.enc_list(list(repl), lambda l: [proto.enc_str(l)])
+    f += proto.enc_list(sorted(files.items()), lambda e: [proto.enc_str(e[0]), proto.enc_str(e[1])])
+    f += [str(FUEL), proto.enc_str(case['src'])]
+    return ('T2T', 't%d' % i, f)
+
+def t2t_decode(ans):
+    rd = proto.Reader(ans)
+    st = rd.next()
+    if st != 'ok':
+        return {'outcome': st, 'detail': rd.rest()[:1]}
+    toks = rd.toks(); txt, pos = rd.txtpos(); parts = rd.parts()
+    unknowns = rd.list(rd.str); diags = rd.diags()
+    return {'outcome': 'ok', 'toks': toks, 'txt': txt, 'pos': pos, 'parts': parts, 'unknowns': unknowns, 'diags': diags}
+
+def cleveref_used(case):
+    s = case['src'] + ((case.get('opts') or {}).get('defs') or '') + ''.join((case.get('files') or {}).values())
+    o = case.get('opts') or {}
+    return 'cleveref' in s or 'cleveref' in (o.get('pack') or '')
+
+def t2t(ctx, cases, results, proj=('outcome', 'toks', 'text', 'diags', 'unknowns'), limit=None):
+    """token-level correspondence of the whole filter; `proj` = projections compared"""
+    if not ctx.model_ok:
+        return
+    idx = [i for i in range(len(cases)) if not cleveref_used(cases[i]) and results[i]['outcome'] in ('ok', 'crash', 'fatal')]
+    if limit and len(idx) > limit:
+        idx = ctx.rng.sample(idx, limit)
+    ans = model.run_batch([t2t_request(i, cases[i]) for i in idx], timeout=1800)
+    for i in idx:
+        c, r = cases[i], results[i]
+        m = t2t_decode(ans['t%d' % i])
+        ctx.corr['cases'] += 1
+        info = dict(src=c['src'], opts=c.get('opts'), multi=c.get('multi'), files=c.get('files'), thresh=c.get('thresh'))
+        if m['outcome'] == 'fuel':
+            ctx.count('model_out_of_fuel'); continue
+        if 'outcome' in proj and m['outcome'] != r['outcome']:
+            ctx.disagree('tex2txt outcome: impl %s (%s) / model %s %s' % (r['outcome'], r.get('exc'), m['outcome'], m.get('detail')), **info)
+            continue
+        if r['outcome'] != 'ok':
+            continue
+        if 'toks' in proj and r.get('toks') is not None and m['toks'] != r['toks']:
+            a, b = r['toks'], m['toks']
+            k = next((j for j in range(min(len(a), len(b))) if a[j] != b[j]), min(len(a), len(b)))
+            ctx.disagree('tex2txt final tokens differ at %d' % k, impl=a[max(0, k - 1):k + 3], model=b[max(0, k - 1):k + 3], **info)
+            continue
+        if 'text' in proj:
+            if c.get('multi'):
+                if m['parts'] != r.get('parts'):
+                    ctx.disagree('tex2txt multi-language parts differ', impl=r.get('parts'), model=m['parts'], **info); continue
+            elif (m['txt'], m['pos']) != (r.get('txt'), r.get('pos')):
+                ctx.disagree('tex2txt text/positions differ', impl=[r.get('txt'), r.get('pos')], model=[m['txt'], m['pos']], **info); continue
+        if 'diags' in proj and m['diags'] != impl.parse_stderr(r['stderr']):
+            ctx.disagree('tex2txt diagnostics differ', impl=impl.parse_stderr(r['stderr']), model=m['diags'], **info); continue
+        if 'unknowns' in proj and r.get('unknowns') is not None and m['unknowns'] != r['unknowns']:
+            ctx.disagree('tex2txt unknowns differ', impl=r['unknowns'], model=m['unknowns'], **info)
